@@ -989,6 +989,12 @@ def run(chk: Check):
     side.shutdown()
     timing["request_checks_correspondence_wait"] = round(_time.time() - t3, 1)
 
+    # tie to the source by regeneration: the operator layer of tensor.py (evaluate_binary_operator,
+    # evaluate_matrix_multiplication_operator, the eight __op__ methods, Format/Mode) is re-translated from /repo
+    # on every run and PROVED equal to model/Operators.v (coq/props/TIE_operators.v) + translator self-check
+    from props._tie import run_tie
+    run_tie(chk, ["operators"])
+
 
 def replay(chk: Check, payload: dict) -> int:
     c = payload.get("case") or payload
